@@ -697,6 +697,8 @@ def wide():
                     continue
                 q = Q if (c, r) in [(17, 2), (2, 17)] or (mode == 0 and (c, r) == (8, 8)) else T
                 add("C06", f"c06_{nm}_u8_wide_{c}x{r}{'_spare' if spare else ''}", f"c06::insert_u8_b::<72, 36>({mode}, {c}, {r}, {b(spare)})", max(c, r) + 4, q)
+    # (insert_col on 64x2 - 128 cells - exhausts CBMC's memory)
+    add("C06", "c06_insert_row_u8_wide_8x9", "c06::insert_u8_b::<136, 10>(0, 8, 9, false)", 14, T)
     # (remove_col on 17+ lines and 72-byte inserts/removes exhaust CBMC's memory: not registered)
     for (c, r) in [(17, 2), (2, 17), (8, 8), (33, 2), (2, 33)]:
         add("C07", f"c07_remove_row_u8_wide_{c}x{r}", f"c07::remove_u8_b::<72>(true, {c}, {r})", max(c, r) + 3, Q if (c, r) in [(17, 2), (2, 17), (8, 8)] else T)
